@@ -576,12 +576,32 @@ def m_int_cmp(I, fr, fn, a):
     x, y = D(I, a[0]), D(I, a[1])
     if not (isinstance(x, int) and isinstance(y, int)): return NotImplemented
     return Enum('core::cmp::Ordering', 'Less' if x < y else ('Equal' if x == y else 'Greater'), [])
+def _bv2(x, y, ty):
+    bits = INT_BITS[ty]
+    bv = lambda v: z3.BitVecVal(v, bits) if isinstance(v, int) else v
+    return bv(x), bv(y), bits
 def m_int_wrapping(I, fr, fn, a):
     ty = _ity(fn); op = fn.split('::')[-1]
     x, y = a[0], a[1]
+    if (z3.is_bv(x) or z3.is_bv(y)) and ty in INT_BITS:
+        X, Y, bits = _bv2(x, y, ty)
+        return z3.simplify({'wrapping_add': X + Y, 'wrapping_sub': X - Y, 'wrapping_mul': X * Y}[op])
     if not (isinstance(x, int) and isinstance(y, int)): return NotImplemented
     r = {'wrapping_add': x + y, 'wrapping_sub': x - y, 'wrapping_mul': x * y}[op]
     return _wrapi(r, ty)
+def m_int_overflowing(I, fr, fn, a):
+    ty = _ity(fn); op = fn.split('::')[-1]; x, y = a[0], a[1]
+    sg = ty.startswith('i')
+    if (z3.is_bv(x) or z3.is_bv(y)) and ty in INT_BITS:
+        X, Y, bits = _bv2(x, y, ty)
+        if op == 'overflowing_add': r = X + Y; o = z3.Not(z3.And(z3.BVAddNoOverflow(X, Y, sg), z3.BVAddNoUnderflow(X, Y))) if sg else z3.Not(z3.BVAddNoOverflow(X, Y, False))
+        elif op == 'overflowing_sub': r = X - Y; o = z3.Not(z3.And(z3.BVSubNoOverflow(X, Y), z3.BVSubNoUnderflow(X, Y, True))) if sg else z3.ULT(X, Y)
+        else: r = X * Y; o = z3.Not(z3.And(z3.BVMulNoOverflow(X, Y, sg), z3.BVMulNoUnderflow(X, Y))) if sg else z3.Not(z3.BVMulNoOverflow(X, Y, False))
+        return Agg('tuple', [z3.simplify(r), z3.simplify(o)])
+    if not (isinstance(x, int) and isinstance(y, int)): return NotImplemented
+    r = {'overflowing_add': x + y, 'overflowing_sub': x - y, 'overflowing_mul': x * y}[op]
+    w = _wrapi(r, ty)
+    return Agg('tuple', [w, w != r])
 def m_int_checked(I, fr, fn, a):
     ty = _ity(fn); op = fn.split('::')[-1]; x, y = a[0], a[1]
     if not (isinstance(x, int) and isinstance(y, int)): return NotImplemented
@@ -640,7 +660,7 @@ STD_FNS = [
     (r'^<[ui](8|16|32|64|128|size) as core::cmp::Ord>::(min|max)$', m_int_minmax), (r'^core::cmp::(min|max)::<[ui](8|16|32|64|128|size)>$', m_int_minmax),
     (r'^<[ui](8|16|32|64|128|size) as core::cmp::Ord>::cmp$', m_int_cmp),
     (r'^core::num::<impl \w+>::wrapping_(add|sub|mul)$', m_int_wrapping), (r'^core::num::<impl \w+>::checked_(add|sub|mul|div|rem)$', m_int_checked),
-    (r'^core::num::<impl \w+>::saturating_(add|sub|mul)$', m_int_saturating),
+    (r'^core::num::<impl \w+>::saturating_(add|sub|mul)$', m_int_saturating), (r'^core::num::<impl \w+>::overflowing_(add|sub|mul)$', m_int_overflowing),
     (r'^core::num::<impl \w+>::(leading_zeros|trailing_zeros|count_ones|is_power_of_two|swap_bytes)$', m_int_bits),
     (r'^core::num::<impl \w+>::to_be_bytes$', m_to_be_bytes), (r'^core::num::<impl \w+>::from_be_bytes$', m_from_be_bytes),
     (r'^core::slice::<impl \[.*\]>::(first|last)_chunk::<\d+>$', m_first_chunk),
@@ -780,6 +800,8 @@ def ark_ff_models():
         (r'^<fields::f[pqr]::u64::wrapper::F[pqr] as ark_ff::Field>::pow::<.*>$', m_field_pow),
         (r'^ark_ff::BigInt::<\d+>::one$', lambda I, fr, fn, a: Agg('ark_ff::BigInt', [[1] + [0] * (int(re.search(r'<(\d+)>', fn).group(1)) - 1)])),
         (r'^ark_ff::BigInt::<\d+>::new$', lambda I, fr, fn, a: Agg('ark_ff::BigInt', [list(a[0])])),
+        (r'^<ark_ff::BigInt<\d+> as core::default::Default>::default$', lambda I, fr, fn, a: Agg('ark_ff::BigInt', [[0] * int(re.search(r'BigInt<(\d+)>', fn).group(1))])),
+        (r'^ark_ff::BigInt::<\d+>::zero$', lambda I, fr, fn, a: Agg('ark_ff::BigInt', [[0] * int(re.search(r'<(\d+)>', fn).group(1))])),
         (r'^ark_ff::fp::montgomery_backend::<impl ark_ff::Fp<.*>>::new$', m_fp_new),
         (r'^ark_ff::fp::montgomery_backend::<impl ark_ff::Fp<.*>>::new_unchecked$', m_fp_new_unchecked),
     ]
